@@ -112,7 +112,8 @@ type circRun struct {
 	c       *circuit.Circuit
 	params  circParams
 	// raw event records for the monitors
-	ev []evRec
+	ev       []evRec
+	initOpen bool
 }
 
 type evRec struct {
@@ -145,10 +146,15 @@ func (h *circRun) AfterFunc(d time.Duration, f func()) *time.Timer {
 
 func (h *circRun) add(s string, r evRec) {
 	h.mu.Lock()
-	h.log = append(h.log, s)
+	if s != "" {
+		h.log = append(h.log, s)
+	}
 	h.ev = append(h.ev, r)
 	h.mu.Unlock()
 }
+
+// note records something for the monitors only (not compared with the model).
+func (h *circRun) note(r evRec) { h.add("", r) }
 
 func optD(d time.Duration, has bool) string {
 	if !has {
@@ -238,17 +244,21 @@ type recOpener struct {
 
 func (r *recOpener) ShouldOpen(ctx context.Context, now time.Time) bool {
 	r.recRun.h.add("OAsked QShouldOpen "+hc.ZofTime(now), evRec{Kind: "asked", K: "ShouldOpen", T: now})
-	if r.inner == nil {
-		return r.recRun.h.script.so
+	ans := r.recRun.h.script.so
+	if r.inner != nil {
+		ans = r.inner.ShouldOpen(ctx, now)
 	}
-	return r.inner.ShouldOpen(ctx, now)
+	r.recRun.h.note(evRec{Kind: "answer", K: "ShouldOpen", B: ans})
+	return ans
 }
 func (r *recOpener) Prevent(ctx context.Context, now time.Time) bool {
 	r.recRun.h.add("OAsked QPrevent "+hc.ZofTime(now), evRec{Kind: "asked", K: "Prevent", T: now})
-	if r.inner == nil {
-		return r.recRun.h.script.prevent
+	ans := r.recRun.h.script.prevent
+	if r.inner != nil {
+		ans = r.inner.Prevent(ctx, now)
 	}
-	return r.inner.Prevent(ctx, now)
+	r.recRun.h.note(evRec{Kind: "answer", K: "Prevent", B: ans})
+	return ans
 }
 
 type recCloser struct {
@@ -259,17 +269,21 @@ type recCloser struct {
 
 func (r *recCloser) ShouldClose(ctx context.Context, now time.Time) bool {
 	r.recRun.h.add("OAsked QShouldClose "+hc.ZofTime(now), evRec{Kind: "asked", K: "ShouldClose", T: now})
-	if r.inner == nil {
-		return r.recRun.h.script.sc
+	ans := r.recRun.h.script.sc
+	if r.inner != nil {
+		ans = r.inner.ShouldClose(ctx, now)
 	}
-	return r.inner.ShouldClose(ctx, now)
+	r.recRun.h.note(evRec{Kind: "answer", K: "ShouldClose", B: ans})
+	return ans
 }
 func (r *recCloser) Allow(ctx context.Context, now time.Time) bool {
 	r.recRun.h.add("OAsked QAllow "+hc.ZofTime(now), evRec{Kind: "asked", K: "Allow", T: now})
-	if r.inner == nil {
-		return r.recRun.h.script.allow
+	ans := r.recRun.h.script.allow
+	if r.inner != nil {
+		ans = r.inner.Allow(ctx, now)
 	}
-	return r.inner.Allow(ctx, now)
+	r.recRun.h.note(evRec{Kind: "answer", K: "Allow", B: ans})
+	return ans
 }
 
 type recFb struct {
@@ -376,6 +390,7 @@ func newCircRun(p *circParams) *circRun {
 		cfg.Metrics.Circuit = append(cfg.Metrics.Circuit, &recCirc{h: h, who: fmt.Sprintf("(WUser %d%%nat)", i)})
 	}
 	h.c = circuit.NewCircuitFromConfig("x", cfg)
+	h.initOpen = h.c.IsOpen()
 	// NewCircuitFromConfig merges the library defaults into zero-valued settings: read the live values back
 	eff := h.c.Config()
 	p.Live.Timeout, p.Live.Max, p.Live.FbMax = int64(eff.Execution.Timeout), eff.Execution.MaxConcurrentRequests, eff.Fallback.MaxConcurrentRequests
